@@ -187,6 +187,7 @@ def check_inject(case, ref, builders):
 def fault_cases():
     """real design faults caught by checking passes, and a generator body raising once"""
     return [("fault", k) for k in ("width", "missing-port", "orphan", "generator-once", "generator-nested", "generator-bad-params", "generator-fallback", "late-fault-shared-children")] + \
+        [("fault", f"export-fault/{v}") for v in ("tuple", "list", "nested-paramclass", "object")] + \
         [("fault", f"repair-child-ports/{how}") for how in ("add-port", "remove-port", "widen-port")] + \
         [("fault", f"persistent/{f}/depth{d}") for f in ("width", "missing-port", "array-missing-port", "anon-width", "unnamed", "self-instance", "circular")
          for d in (0, 1, 2)]
@@ -250,6 +251,49 @@ def check_fault(case, ref, builders):
                     {"case": repr(case)})
         if got != want:
             return (f"fault.{kind}.differs", "a new parent over the repaired child exports differently from a fresh build", {"case": repr(case)})
+        return None
+    if kind.startswith("export-fault/"):
+        # a failure INSIDE the export (after elaboration succeeded): a parameter value with no package form, between two
+        # good ones. Repeating the export - of that design, of a second design sharing the same call object, of the module
+        # alone - reports the original error every time; a design with a good call exports as in a fresh process
+        import io as _io
+
+        @h.paramclass
+        class Inner2:
+            k = h.Param(dtype=int, desc="k", default=1)
+        bad = {"tuple": (1, 2), "list": [1, 2], "nested-paramclass": Inner2(k=3), "object": object()}[kind.split("/")[1]]
+        E = h.ExternalModule(name="XfE", port_list=[h.Inout(name="a")], paramtype=dict, desc="", domain="xf")
+        badcall = E(dict(w=1, bad=bad, z=3))
+        goodcall = E(dict(w=1, z=3))
+
+        def design(name, call, n=1):
+            m = h.Module(name=name)
+            m.s = h.Signal()
+            m.pre = goodcall(a=m.s)
+            for k in range(n):
+                m.add(call(a=m.s), name=f"u{k}")
+            return m
+        want_good = serialize(h.to_proto(design("XfGoodRef", goodcall, 2)))
+        d1, d2 = design("XfOne", badcall), design("XfTwo", badcall, 2)
+        first = None
+        for attempt, (what, f) in enumerate([("first design", lambda: h.to_proto(d1)), ("first design again", lambda: h.to_proto(d1)),
+                                             ("second design sharing the call", lambda: h.to_proto(d2)),
+                                             ("netlist of the first", lambda: h.netlist(d1, _io.StringIO(), fmt="spice")),
+                                             ("both in a list", lambda: h.to_proto([d1, d2])),
+                                             ("first design a third time", lambda: h.to_proto(d1))]):
+            try:
+                f()
+            except Exception as e:
+                got = (type(e).__name__, str(e)[:80])
+            else:
+                return ("fault.export-fault.accepted", f"{kind}: {what}: a result was returned for a design with an un-exportable "
+                                                       f"parameter value", {"case": repr(case)})
+            if first is None:
+                first = got
+            elif got[0] != first[0]:
+                return ("fault.export-fault.retry-different", f"{kind}: {what} reports {got}, the first export {first}", {"case": repr(case)})
+        if serialize(h.to_proto(design("XfGoodRef", goodcall, 2))) != want_good:
+            return ("fault.export-fault.unrelated-differs", f"{kind}: a design of good calls exports differently after the failures", {"case": repr(case)})
         return None
     if kind.startswith("persistent/"):
         # the failed call repeated many times, through every entry point: the original error each time, never a package -
